@@ -284,6 +284,43 @@ def syntactic(E):
                            'with warnings.catch_warnings():' in src, props=('C18',))
 
 
+def profiling_pairing(E):
+    """--profile: the hooks the profiler installs are taken out by the same profiler object.  Decided on the source:
+    Profiling.global_setup binds late_setup / early_teardown to enable / disable of ONE object (self.profiler, assigned once
+    before, not re-assigned in between), nothing else in the class assigns them; CProfiler takes enable / disable from the one
+    cProfile.Profile() it creates.  With Runner.run's contract (every feature gets late_setup before and early_teardown after
+    the test phase, on every exit) and the assumed contract of cProfile (disable() removes what enable() installed), the
+    profile hook is balanced."""
+    gs, _, _ = E.find_def('profiling.Profiling.global_setup')
+    stmts = [n for n in ast.walk(gs) if isinstance(n, ast.Assign)]
+    order = [(n.lineno, ast.unparse(n.targets[0]), ast.unparse(n.value)) for n in stmts if len(n.targets) == 1]
+    prof = [o for o in order if o[1] == 'self.profiler']
+    late = [o for o in order if o[1] == 'self.late_setup']
+    early = [o for o in order if o[1] == 'self.early_teardown']
+    ok = (len(prof) == 1 and len(late) == 1 and len(early) == 1
+          and late[0][2] == 'self.profiler.enable' and early[0][2] == 'self.profiler.disable'
+          and prof[0][0] < late[0][0] and prof[0][0] < early[0][0])
+    tree = E.module('profiling')[0]
+    cls = [n for n in tree.body if isinstance(n, ast.ClassDef) and n.name == 'Profiling'][0]
+    others = [ast.unparse(a)[:60] for f in cls.body if isinstance(f, ast.FunctionDef) and f.name != 'global_setup'
+              for a in ast.walk(f) if isinstance(a, (ast.Assign, ast.AugAssign))
+              and any(ast.unparse(t) in ('self.late_setup', 'self.early_teardown', 'self.profiler')
+                      for t in (a.targets if isinstance(a, ast.Assign) else [a.target])) and f.name != '__init__']
+    defs = [f.name for f in cls.body if isinstance(f, ast.FunctionDef) and f.name in ('late_setup', 'early_teardown')]
+    E.syntactic_obligation("Profiling: late_setup / early_teardown are enable / disable of one and the same profiler object, bound "
+                           "once in global_setup (what --profile installs before the tests is removed by the same object after them)",
+                           ok and not others and not defs,
+                           detail='assignments %s; elsewhere %s; methods %s' % (prof + late + early, others, defs), props=('C18',))
+    cp = [n for n in tree.body if isinstance(n, ast.ClassDef) and n.name == 'CProfiler'][0]
+    init = [f for f in cp.body if isinstance(f, ast.FunctionDef) and f.name == '__init__'][0]
+    a = {ast.unparse(n.targets[0]): ast.unparse(n.value) for n in ast.walk(init) if isinstance(n, ast.Assign) and len(n.targets) == 1}
+    ok2 = (a.get('self.profiler') == 'cProfile.Profile()' and a.get('self.enable') == 'self.profiler.enable'
+           and a.get('self.disable') == 'self.profiler.disable')
+    redefs = [f.name for f in cp.body if isinstance(f, ast.FunctionDef) and f.name in ('enable', 'disable')]
+    E.syntactic_obligation("CProfiler: enable / disable are those of the one cProfile.Profile() created in __init__",
+                           ok2 and not redefs, detail=str(a), props=('C18',))
+
+
 def register(E):
     E.load_sidecar(os.path.join(HERE, 'common.py'))
     E.records['FRunner'] = {'options': 'Rec[FOptions]'}
@@ -315,10 +352,12 @@ def register(E):
         "G.* models interpreter-global state: gc thresholds / debug flags, traceback.format_exception / print_exception, "
         "sys / threading trace hooks; the gc, sys, threading and traceback functions read / write exactly these",
         "tests do not change these globals behind the runner's back; feature teardown methods do not raise (not decided otherwise)",
-        "Profiling rebinds late_setup / early_teardown to the profiler's enable / disable: covered by the bounded oracle only",
+        "Profiling: cProfile.Profile.disable() takes out what enable() of the same object installed (stdlib); that late_setup / "
+        "early_teardown ARE that pair is decided on the source (two syntactic obligations), the profile files it writes are not C18's",
         "T4: warnings.catch_warnings() restores the filters on every exit",
     ]
     syntactic(E)
+    profiling_pairing(E)
     G = 'garbagecollection.'
     E.add_contract(G + 'Threshold.global_setup', THRESH_SETUP)
     E.add_contract(G + 'Threshold.global_teardown', THRESH_TEARDOWN)
